@@ -2,8 +2,9 @@
 Props/C12.lean — results are invariant under the choice of length unit (λ > 0 a common factor on
 every length): magnets unchanged, currents ÷ λ, dipoles ÷ λ³; proportional to the excitation.
 Proved here for the kernels that are plain algebra (Dipole, Sphere incl. its inside/outside
-switch, straight current segment incl. its foot-point case split).
-/- FULL: all source classes.  Not shown by theorem: Cuboid, Cylinder, CylinderSegment, Circle,
+switch, straight current segment incl. its foot-point case split) and for the Cuboid: its six
+closed-form factors, the octant reflection and sign logic, and every mask of its wrapper.
+/- FULL: all source classes.  Not shown by theorem: Cylinder, CylinderSegment, Circle,
    Triangle family (kernels not ported to the real carrier); there the oracle rescales one
    configuration over 10^-9 … 10^9.  Known finding: TriangularMesh inside/outside and
    orientation tests use absolute tolerances and fail for lengths ≲ 1e-6. -/
@@ -70,4 +71,116 @@ theorem segment_homogeneous (cur : ℝ) (p1 p2 po : V3 ℝ) :
   have hpi : Real.pi ≠ 0 := Real.pi_ne_zero
   apply V3.ext' <;> simp [vs, vd, n] <;> ring
 end
+
+/-! ### Cuboid -/
+
+theorem sqrt3_scale (l : ℝ) (hl : 0 < l) (u v w : ℝ) :
+    Real.sqrt (l * u * (l * u) + l * v * (l * v) + l * w * (l * w)) = l * Real.sqrt (u * u + v * v + w * w) := by
+  have : l * u * (l * u) + l * v * (l * v) + l * w * (l * w) = l ^ 2 * (u * u + v * v + w * w) := by ring
+  rw [this, Real.sqrt_mul (by positivity), Real.sqrt_sq hl.le]
+
+theorem log4_scale (l : ℝ) (hl : 0 < l) (a b c d e f g h : ℝ) (hP : a * b * c * d ≠ 0) (hQ : e * f * g * h ≠ 0) :
+    Real.log (l * a * (l * b) * (l * c) * (l * d)) - Real.log (l * e * (l * f) * (l * g) * (l * h)) =
+      Real.log (a * b * c * d) - Real.log (e * f * g * h) := by
+  have h1 : l * a * (l * b) * (l * c) * (l * d) = l ^ 4 * (a * b * c * d) := by ring
+  have h2 : l * e * (l * f) * (l * g) * (l * h) = l ^ 4 * (e * f * g * h) := by ring
+  have hl4 : l ^ 4 ≠ 0 := by positivity
+  rw [h1, h2, Real.log_mul hl4 hP, Real.log_mul hl4 hQ]
+  ring
+
+theorem arg_scale (l : ℝ) (hl : 0 < l) (u w v m : ℝ) :
+    Complex.arg ⟨l * v * (l * m), l * u * (l * w)⟩ = Complex.arg ⟨v * m, u * w⟩ := by
+  have : (⟨l * v * (l * m), l * u * (l * w)⟩ : ℂ) = ((l ^ 2 : ℝ) : ℂ) * ⟨v * m, u * w⟩ := by
+    apply Complex.ext
+    · simp only [Complex.mul_re, Complex.ofReal_re, Complex.ofReal_im]; ring
+    · simp only [Complex.mul_im, Complex.ofReal_re, Complex.ofReal_im]; ring
+  rw [this, Complex.arg_real_mul _ (by positivity)]
+
+/-- the eight corner distances -/
+noncomputable def cd3 (u v w : ℝ) : ℝ := Real.sqrt (u * u + v * v + w * w)
+
+/-- Cuboid: the six closed-form factors of `magnet_cuboid_Bfield` are invariant under a common
+positive length factor `l`, provided the arguments of the six logarithms do not vanish (i.e. off
+the edges and their extensions, which the wrapper masks out) -/
+theorem cuboidFF_scale_invariant (l : ℝ) (hl : 0 < l) (xma xpa ymb ypb zmc zpc : ℝ)
+    (h1 : (xma + cd3 xma ymb zmc) * (xpa + cd3 xpa ypb zmc) * (xpa + cd3 xpa ymb zpc) * (xma + cd3 xma ypb zpc) ≠ 0)
+    (h2 : (xpa + cd3 xpa ymb zmc) * (xma + cd3 xma ypb zmc) * (xma + cd3 xma ymb zpc) * (xpa + cd3 xpa ypb zpc) ≠ 0)
+    (h3 : (-ymb + cd3 xma ymb zmc) * (-ypb + cd3 xpa ypb zmc) * (-ymb + cd3 xpa ymb zpc) * (-ypb + cd3 xma ypb zpc) ≠ 0)
+    (h4 : (-ymb + cd3 xpa ymb zmc) * (-ypb + cd3 xma ypb zmc) * (ymb - cd3 xma ymb zpc) * (ypb - cd3 xpa ypb zpc) ≠ 0)
+    (h5 : (-zmc + cd3 xma ymb zmc) * (-zmc + cd3 xpa ypb zmc) * (-zpc + cd3 xpa ymb zpc) * (-zpc + cd3 xma ypb zpc) ≠ 0)
+    (h6 : (-zmc + cd3 xpa ymb zmc) * (zmc - cd3 xma ypb zmc) * (-zpc + cd3 xma ymb zpc) * (zpc - cd3 xpa ypb zpc) ≠ 0) :
+    cuboidFF (l * xma) (l * xpa) (l * ymb) (l * ypb) (l * zmc) (l * zpc) = cuboidFF xma xpa ymb ypb zmc zpc := by
+  have hs := sqrt3_scale l hl
+  have f1 : ∀ a b : ℝ, l * a + l * b = l * (a + b) := fun a b => by ring
+  have f2 : ∀ a b : ℝ, -(l * a) + l * b = l * (-a + b) := fun a b => by ring
+  have f3 : ∀ a b : ℝ, l * a - l * b = l * (a - b) := fun a b => by ring
+  unfold cuboidFF
+  simp only [sqrt_real, log_real, atan2_real, hs, f1, f2, f3]
+  simp only [cd3] at h1 h2 h3 h4 h5 h6
+  rw [log4_scale l hl _ _ _ _ _ _ _ _ h1 h2, log4_scale l hl _ _ _ _ _ _ _ _ h3 h4,
+    log4_scale l hl _ _ _ _ _ _ _ _ h5 h6]
+  simp only [arg_scale l hl]
+
+theorem cuboidFlip_scale (l : ℝ) (hl : 0 < l) (x : V3 ℝ) : cuboidFlip (vs l x) = cuboidFlip x := by
+  simp only [cuboidFlip, vs, lt_real, n, ofNat_real, Nat.cast_zero, CuboidFlip.mk.injEq, decide_eq_decide]
+  refine ⟨?_, ?_, ?_⟩
+  · constructor <;> intro h <;> nlinarith
+  · constructor <;> intro h <;> nlinarith
+  · constructor <;> intro h <;> nlinarith
+
+theorem cuboidReflect_scale (l : ℝ) (hl : 0 < l) (x : V3 ℝ) : cuboidReflect (vs l x) = vs l (cuboidReflect x) := by
+  have hf := cuboidFlip_scale l hl x
+  simp only [cuboidReflect, hf]
+  apply V3.ext' <;> simp only [vs] <;> split <;> ring
+
+/-- C12 (Cuboid): B of a cuboid is unchanged when dimension and observer are multiplied by the same
+positive factor — for every observer of the general case (the wrapper's masks, themselves
+scale-free by `cuboidMasks_scale_invariant`, route all other observers to the special cases) -/
+theorem cuboidB_scale_invariant (l : ℝ) (hl : 0 < l) (dim pol x : V3 ℝ)
+    (hgen :
+      let r := cuboidReflect x
+      let xma := r.x - dim.x / 2; let xpa := r.x + dim.x / 2
+      let ymb := r.y - dim.y / 2; let ypb := r.y + dim.y / 2
+      let zmc := r.z - dim.z / 2; let zpc := r.z + dim.z / 2
+      (xma + cd3 xma ymb zmc) * (xpa + cd3 xpa ypb zmc) * (xpa + cd3 xpa ymb zpc) * (xma + cd3 xma ypb zpc) ≠ 0 ∧
+      (xpa + cd3 xpa ymb zmc) * (xma + cd3 xma ypb zmc) * (xma + cd3 xma ymb zpc) * (xpa + cd3 xpa ypb zpc) ≠ 0 ∧
+      (-ymb + cd3 xma ymb zmc) * (-ypb + cd3 xpa ypb zmc) * (-ymb + cd3 xpa ymb zpc) * (-ypb + cd3 xma ypb zpc) ≠ 0 ∧
+      (-ymb + cd3 xpa ymb zmc) * (-ypb + cd3 xma ypb zmc) * (ymb - cd3 xma ymb zpc) * (ypb - cd3 xpa ypb zpc) ≠ 0 ∧
+      (-zmc + cd3 xma ymb zmc) * (-zmc + cd3 xpa ypb zmc) * (-zpc + cd3 xpa ymb zpc) * (-zpc + cd3 xma ypb zpc) ≠ 0 ∧
+      (-zmc + cd3 xpa ymb zmc) * (zmc - cd3 xma ypb zmc) * (-zpc + cd3 xma ymb zpc) * (zpc - cd3 xpa ypb zpc) ≠ 0) :
+    cuboidB (vs l dim) pol (vs l x) = cuboidB dim pol x := by
+  obtain ⟨h1, h2, h3, h4, h5, h6⟩ := hgen
+  simp only [cuboidB, cuboidFlip_scale l hl, cuboidReflect_scale l hl]
+  simp only [vs, n, ofNat_real, Nat.cast_ofNat]
+  have e : ∀ r d : ℝ, l * r - l * d / 2 = l * (r - d / 2) := fun r d => by ring
+  have e' : ∀ r d : ℝ, l * r + l * d / 2 = l * (r + d / 2) := fun r d => by ring
+  simp only [e, e']
+  rw [cuboidFF_scale_invariant l hl _ _ _ _ _ _ h1 h2 h3 h4 h5 h6]
+
+/-- the Cuboid wrapper's inside / surface / edge / special-case masks use relative tolerances
+only: they are the same at every length scale -/
+theorem cuboidMasks_scale_invariant (l : ℝ) (hl : 0 < l) (dim pol x : V3 ℝ) :
+    cuboidMasks (vs l dim) pol (vs l x) = cuboidMasks dim pol x := by
+  have habs : ∀ a : ℝ, |l * a| = l * |a| := fun a => by rw [abs_mul, abs_of_pos hl]
+  have hlt : ∀ u v : ℝ, (l * u < l * v) ↔ (u < v) := fun u v => by
+    constructor <;> intro h <;> nlinarith
+  simp only [cuboidMasks, vs, lt_real, abs_real, eq0_real, n, ofNat_real, habs]
+  have r3 : l * |dim.x| / ↑(2 : ℕ) * (l * |dim.y| / ↑(2 : ℕ)) * (l * |dim.z| / ↑(2 : ℕ)) = 0 ↔
+      |dim.x| / ↑(2 : ℕ) * (|dim.y| / ↑(2 : ℕ)) * (|dim.z| / ↑(2 : ℕ)) = 0 := by
+    have hl' : l ≠ 0 := hl.ne'
+    constructor
+    · intro h
+      have : l ^ 3 * (|dim.x| / ↑(2 : ℕ) * (|dim.y| / ↑(2 : ℕ)) * (|dim.z| / ↑(2 : ℕ))) = 0 := by
+        rw [← h]; ring
+      rcases mul_eq_zero.mp this with h' | h'
+      · exact absurd h' (by positivity)
+      · exact h'
+    · intro h
+      have : l * |dim.x| / ↑(2 : ℕ) * (l * |dim.y| / ↑(2 : ℕ)) * (l * |dim.z| / ↑(2 : ℕ)) =
+          l ^ 3 * (|dim.x| / ↑(2 : ℕ) * (|dim.y| / ↑(2 : ℕ)) * (|dim.z| / ↑(2 : ℕ))) := by ring
+      rw [this, h, mul_zero]
+  simp only [r3]
+  have r1 : ∀ a xx : ℝ, l * |xx| - l * |a| / ↑(2 : ℕ) = l * (|xx| - |a| / ↑(2 : ℕ)) := fun a xx => by ring
+  have r2 : ∀ t a : ℝ, t * (l * |a| / ↑(2 : ℕ)) = l * (t * (|a| / ↑(2 : ℕ))) := fun t a => by ring
+  simp only [r1, r2, habs, hlt]
 end MagpyVerif.C12
